@@ -5,7 +5,7 @@
 
   api: RP | CA n | CO n | TR | TG | ER.   k: 0 = no fault, else the k-th probe of this call faults; kind: t | i.
   beh (prefix form): K | S a b | P id | T | BR | RT | I | Ft n b | Fc n b | Fn n b | Fo b | FO ret b | Fr b | Fb b | Fp b
-                   | Y hc hf body handler fin | G n b | At b | Aw b | Ap b | Aq b | Bq b | Bt b | Bw b | Bp b | J b | YT a b | AC n body | GC slot n body | GN slot | GT slot | GR slot
+                   | Y hc hf body handler fin | G n b | At b | Aw b | Ap b | Aq b | Bq b | Bt b | Bw b | Bp b | J b | YD | YT a b | AC n body | GC slot n body | GN slot | GT slot | GR slot
   Answer: per call  <outcome>|<trace>|<state>  joined by " ; ", where trace = "id:c,t,i,r …" and
   state = sp,sb,prgNil,stashGlobal,privNil,callLen,tryLen,iterLen,refLen,jobs,interrupted,privDepth,
   curAsyncRunnerNil (the model has no async runner: constant 1),newTargetNil,args.
@@ -92,6 +92,7 @@ def parseBeh : Nat → List String → Option (Beh × List String)
     | "Bp" :: r => do
       let (b, r1) ← parseBeh fuel r
       pure (.swallow .runProgramRec b, r1)
+    | "YD" :: r => some (.yield_, r)
     | "YT" :: r => do
       let (a, r1) ← parseBeh fuel r
       let (b, r2) ← parseBeh fuel r1
@@ -122,7 +123,7 @@ def parseApi : List String → Option (TopApi × List String)
   | _ => none
 
 def showOutcome : Outcome → String
-  | .normal => "ok" | .thrown => "ex" | .fatal => "fatal" | .stuck => "STUCK" | .exit _ => "EXIT"
+  | .normal => "ok" | .thrown => "ex" | .fatal => "fatal" | .stuck => "STUCK" | .exit _ => "EXIT" | .yielded => "YIELDED"
 
 def b01 (b : Bool) : String := if b then "1" else "0"
 
